@@ -247,22 +247,82 @@ def source_hash(qualname):
     return "unavailable"
 
 
+def tree_key(tier, seed):
+    """Content hash of everything a unit's result depends on: /repo's orquesta sources as imported,
+    the framework, the contracts, the findings, tier and seed."""
+    import orquesta
+    h = hashlib.sha256()
+    roots = [os.path.dirname(os.path.abspath(orquesta.__file__)), os.path.join(VERIF, "pyvc"),
+             os.path.join(VERIF, "contracts"), os.path.join(VERIF, "findings")]
+    for root in roots:
+        for dp, dn, fn in sorted(os.walk(root)):
+            dn[:] = sorted(d for d in dn if d not in ("__pycache__", "tests"))
+            for f in sorted(fn):
+                if f.endswith((".py", ".json", ".yaml")):
+                    p = os.path.join(dp, f)
+                    h.update(p.encode())
+                    with open(p, "rb") as fh:
+                        h.update(fh.read())
+    kf = os.path.join(VERIF, "known_findings.json")
+    if os.path.exists(kf):
+        h.update(open(kf, "rb").read())
+    h.update(("%s|%s" % (tier, seed)).encode())
+    return h.hexdigest()[:24]
+
+
 def run_units(units, tier, seed, jobs=None):
-    """units: list of (module, classname).  Returns list of worker outputs."""
-    tasks = []
+    """units: list of (module, classname).  Returns (worker outputs, names of units served from cache).
+
+    Unit results are a pure function of the sources hashed by tree_key(); within one tree they are
+    computed once and shared between the property checks that use the same unit (cache under
+    .cache/, never committed; VERIF_NOCACHE=1 disables it)."""
+    use_cache = not os.environ.get("VERIF_NOCACHE")
+    key = tree_key(tier, seed) if use_cache else None
+    cdir = os.path.join(os.environ.get("VERIF_OUT", VERIF), ".cache")
+    outs, cached, tasks, todo = [], [], [], []
     for mod, cls in units:
+        cpath = os.path.join(cdir, "%s-%s.json" % (cls, key)) if use_cache else None
+        if cpath and os.path.exists(cpath):
+            try:
+                with open(cpath) as f:
+                    outs.extend(json.load(f))
+                cached.append(cls)
+                continue
+            except Exception:
+                pass
         u = getattr(importlib.import_module(mod), cls)()
         tmo = u.timeout_ms * (6 if tier == "thorough" else 1)
+        todo.append((cls, cpath))
         for sp in u.splits(tier):
             tasks.append((mod, cls, sp, tier, seed, tmo))
-    if not tasks:
-        return []
-    n = jobs or min(16, os.cpu_count() or 4, len(tasks))
-    if n <= 1:
-        return [_worker(t) for t in tasks]
-    ctxm = multiprocessing.get_context("fork")
-    with ctxm.Pool(n) as pool:
-        return pool.map(_worker, tasks, chunksize=1)
+    if tasks:
+        n = jobs or min(16, os.cpu_count() or 4, len(tasks))
+        if n <= 1:
+            res = [_worker(t) for t in tasks]
+        else:
+            ctxm = multiprocessing.get_context("fork")
+            with ctxm.Pool(n) as pool:
+                res = pool.map(_worker, tasks, chunksize=1)
+        outs.extend(res)
+        if use_cache:
+            os.makedirs(cdir, exist_ok=True)
+            for cls, cpath in todo:
+                mine = [o for o in res if o["unit"] == cls]
+                if any(o["error"] for o in mine):
+                    continue
+                tmp = cpath + ".tmp%d" % os.getpid()
+                with open(tmp, "w") as f:
+                    json.dump(mine, f, default=str)
+                os.replace(tmp, cpath)
+            # keep the cache small: drop entries of other trees
+            for f in os.listdir(cdir):
+                if key not in f and not f.endswith(".tmp"):
+                    try:
+                        if time.time() - os.path.getmtime(os.path.join(cdir, f)) > 3600:
+                            os.remove(os.path.join(cdir, f))
+                    except OSError:
+                        pass
+    return outs, cached
 
 
 def cvc5_recheck(smt2, timeout_s=20):
